@@ -105,15 +105,9 @@ impl AdjacencyMatrix {
         }
     @*/
 
-    // A (assumed contract on crate code, needed because is_semicomplete / is_tournament call it): `Size::size` rustdoc
-    // "Count the arcs in the digraph."  Its body `self.blocks.iter().map(|&block| block.count_ones() as usize).sum()`
-    // uses `Iterator::sum`, which vstd cannot specify, so it cannot be verified here.  The arcs of a well-formed matrix
-    // are in bijection with its set cells (lemma_arc_cells), so the count is stated as the number of set cells.
-    #[verifier::external_body]
-    fn size(&self) -> (r: usize)
-        requires self.wf(),
-        ensures r == arc_cells(*self).len(),
-    { unimplemented!() }
+    // `Size::size` (called by is_semicomplete / is_tournament) is no longer assumed here: its contract
+    // `r == set_cells(*self).len()` is proved in unit matrix_degrees (imported by units/matrix_ops.rs);
+    // `lemma_cells_bridge` below identifies `set_cells` with this fragment's `arc_cells`.
 
     /*@fn impl=AdjacencyMatrix trait=IsSemicomplete name=is_semicomplete props=C12,C13
     requires
@@ -131,6 +125,7 @@ impl AdjacencyMatrix {
     @after `let order = self.order();`
         proof {
             assert(order * (order - 1) == order * order - order) by (nonlinear_arith) requires order >= 1;
+            lemma_cells_bridge(*self);
             lemma_pair_count(*self);
             lemma_semicomplete_rows(*self);
             let rem = (core::ops::Range { start: 0usize, end: order }).remaining();
@@ -159,6 +154,7 @@ impl AdjacencyMatrix {
     @after `let order = self.order();`
         proof {
             assert(order * (order - 1) == order * order - order) by (nonlinear_arith) requires order >= 1;
+            lemma_cells_bridge(*self);
             lemma_pair_count(*self);
             lemma_tournament_rows(*self);
             let rem = (core::ops::Range { start: 0usize, end: order }).remaining();
@@ -240,6 +236,14 @@ proof fn lemma_arc_cells(g: AdjacencyMatrix)
     assert forall|u: int, v: int| #[trigger] g.has(u, v) implies arc_cells(g).contains(u * g.order + v) by {
         lemma_index_bound(u, v, n);
     }
+}
+
+/// bridge to unit matrix_degrees: the set whose cardinality `AdjacencyMatrix::size` is PROVED to return there
+/// (`set_cells`, defined through `cells_below`) is this fragment's `arc_cells`
+proof fn lemma_cells_bridge(g: AdjacencyMatrix)
+    ensures set_cells(g) == arc_cells(g),
+{
+    assert(set_cells(g) =~= arc_cells(g));
 }
 
 // ---- counting: the number of unordered pairs is order * (order - 1) / 2 ----
